@@ -12,3 +12,5 @@ for prop in "$@"; do
   echo "$out" | grep -E "^VIOLATION|INCONCLUSIVE|^\[C" | head -4 | cut -c1-400
 done
 git -C /repo checkout -- .
+# evidence written while the seeded change was applied is not evidence about the unchanged tree
+git -C /verif checkout -- evidence/ 2>/dev/null
